@@ -25,9 +25,10 @@ def history(tname, meta, structs, rng, length):
     # some histories move a parameter only by tiny amounts / between tiny magnitudes ("did it change?" guards on setters)
     tiny_mode = rng.random() < 0.2
     asked = []
+    cloned = False
     for _ in range(length):
         r = rng.random()
-        if r < 0.35 and meta['setters']:
+        if r < 0.33 and meta['setters']:
             m, ptys = rng.choice(meta['setters'])
             fld = m.replace('set_', '').replace('_unchecked', '')
             vals = []
@@ -50,10 +51,10 @@ def history(tname, meta, structs, rng, length):
                 else:
                     vals.append(gen.default_value(t, rng) if t != 'real' else gen.pos(rng))
             steps.append(m + ' ' + ' '.join(enc(v) for v in vals))
-        elif r < 0.9 and asked and rng.random() < 0.4:
+        elif r < 0.84 and asked and rng.random() < 0.4:
             # ask an earlier question again (same method, same arguments): the direct probe for a stale cache
             steps.append(rng.choice(asked))
-        elif r < 0.9:
+        elif r < 0.84:
             q, ptys, kd = rng.choice(meta['queries'])
             args = []
             for ts in ptys:
@@ -64,8 +65,9 @@ def history(tname, meta, structs, rng, length):
                 args.append(v)
             steps.append(q + (' ' + ' '.join(enc(v) for v in args) if args else ''))
             asked.append(steps[-1])
-        elif r < 0.95:
-            steps.append('clone')
+        elif r < 0.96:
+            steps.append('clone' if (not cloned or rng.random() < 0.4) else 'swap')
+            cloned = True
         elif meta['eq']:
             steps.append('eq')
     return f'hist.{tname} - {enc(selfv)} {len(steps)} ' + ' '.join(steps), steps
@@ -101,6 +103,7 @@ def mixture_history(rng, length):
 
 def search_site(man, site, seed):
     """a fact theorem about type `site` broke: run many histories on that type only and return the stale ones"""
+    site = site.split('.')[0]          # a definition name or `<Type>.<facts>` stands for its type
     out = extra_run(man, 'thorough', seed, only=site, nper=6000)
     return out['failures']
 
@@ -113,7 +116,7 @@ def extra_run(man, tier, seed, only=None, nper=None):
     lines, meta = [], []
     for tname, m in sorted(hist.items()):
         for i in range(nper):
-            length = rng.choice([2, 3, 4, 6, 8, 12])
+            length = rng.choice([2, 3, 4, 6, 8, 12, 16])
             line, steps = history(tname, m, structs, rng, length)
             lines.append(line)
             meta.append((tname, steps))
